@@ -103,11 +103,13 @@ type driver struct {
 	zero hx.Meta
 	// a recovered panic may have left locks of the index held: nothing more is run on this index
 	poisoned bool
+	hist     []string
 }
 
 func (d *driver) reset() {
 	d.sm = storage.NewVerifPartitionSM(d.cfg.Index.New(d.u))
 	d.poisoned = false
+	d.hist = nil
 }
 
 func (d *driver) resetEvent(hid int) event {
@@ -148,6 +150,8 @@ func (d *driver) exec(o hx.Op, hid, i int, full bool) event {
 		return ev
 	}
 	progress()
+	d.hist = append(d.hist, o.Op)
+	curHist.Store(strings.Join(d.hist, ","))
 	if o.Op == "saveload" {
 		return d.saveload(ev, hid, full)
 	}
@@ -247,6 +251,7 @@ func newDriver(c Cfg, u *hx.Universe) *driver {
 
 // stall watchdog: if no operation starts for 60 s the process dumps its goroutines and exits 7
 var lastProgress int64
+var curHist atomic.Value // the operations of the history being executed (shape)
 
 func progress() { atomic.StoreInt64(&lastProgress, time.Now().UnixNano()) }
 
@@ -258,7 +263,8 @@ func watchdog() {
 			if time.Since(time.Unix(0, atomic.LoadInt64(&lastProgress))) > 60*time.Second {
 				buf := make([]byte, 1<<20)
 				os.Stderr.Write(buf[:runtime.Stack(buf, true)])
-				fmt.Fprintln(os.Stderr, "STALL: no operation started for 60 s")
+				h, _ := curHist.Load().(string)
+				fmt.Fprintln(os.Stderr, "STALL: no operation started for 60 s; history="+h)
 				os.Exit(7)
 			}
 		}
